@@ -2,12 +2,31 @@
   C06 — Static graph hashes of dataset-wide layers identify the function they key.
   Per-edge injectivity of `_hash_graph` (CM.Model.Graph `EdgeK.hashGraph`): the static hash of an edge determines
   the function symbol, the keyword names, the routing table of a Merge switch, the constant, and the static hashes
-  of the (non-Silent) inputs.  The composition over whole graphs (`decodeG_hashGraph`) is in progress (DESIGN.md);
-  until it lands whole sub-pipelines are decided by the S-GHASH correspondence and oracle.
+  of the (non-Silent) inputs.
+
+  Over whole graphs: `evalG x h` evaluates a static hash `h` on the entry id `x` (placeholder ↦ `x`, function
+  applications, tuples, the routing of `SwitchEdge` through the table written into the hash, the two Join markers).
+  `static_hash_determines_value`: on a plain graph (no Silent arguments, no CheckIds, no impure edge — those have no
+  static hash at all) whose inputs are bound to `x`, wherever a node has a value it is `evalG x` of its static hash.
+  Hence `equal_static_hash_equal_function`: two sub-pipelines with equal static hashes return the same value for
+  every id on which both return a value — what Filter / GroupBy / Split / Join key by the static hash is a function
+  of the hash.  (Partial: ids on which one of the two raises are not covered by the theorem; the routing table,
+  whose keys decide that for Merge, is in the hash by `switch_routing_in_hash`.)
 -/
-import CM.Model.VM
+import CM.Proofs.Check
 namespace CM.C06
 open CM
+
+/-- **A static hash determines the value at every id** (where there is one). -/
+theorem static_hash_determines_value (g : Graph) (d : DenCfg) (x : Val) (pl : PlainG g d x) (n : Nat) (h : NHash) (v : Val)
+    (hh : hg g n = .ok h) (hv : (den g d n).v = .ok v) : evalG x h = some v :=
+  static_value g d x pl n h v hh hv
+
+/-- **Equal static graph hashes, equal functions of the entry id.** -/
+theorem equal_static_hash_equal_function_partial (g g' : Graph) (h : NHash) (h1 : g.hashGraph = .ok h) (h2 : g'.hashGraph = .ok h)
+    (x : Val) (d d' : DenCfg) (pl : PlainG g d x) (pl' : PlainG g' d' x) (v v' : Val)
+    (hv : (den g d g.output).v = .ok v) (hv' : (den g' d' g'.output).v = .ok v') : v = v' :=
+  CM.equal_static_hash_equal_function g g' h h1 h2 x d d' pl pl' v v' hv hv'
 
 /-- a function edge: the function, the keyword names and the (silenced) input hashes are all in the hash -/
 theorem function_hash_inj (f g : String) (k l : List String) (s t : List Nat) (hs ht : List NHash)
@@ -83,5 +102,25 @@ example : (EdgeK.switch [(.str "1", 0), (.str "2", 0), (.str "3", 1)]).hashGraph
   have := (switch_routing_in_hash _ _ _ _ h).1
   have := switch_table_inj _ _ this
   simp at this
+
+/-! ### non-vacuity of the global theorem: `Merge(A, B) >> p(id)` with two routings -/
+
+def mergeGraph (t : List (Val × Nat)) : Graph :=
+  { nodes := [⟨"id", none, []⟩,
+              ⟨"a", some (.function "fa" [] []), [0]⟩, ⟨"b", some (.function "fb" [] []), [0]⟩,
+              ⟨"m", some (.switch t), [0, 1, 2]⟩, ⟨"p", some (.function "p" [] []), [3]⟩],
+    inputs := [0], output := 4 }
+
+def cfgOf (x : Val) : DenCfg := { env := fun s => if s = "id" then some x else none }
+
+def routeA : List (Val × Nat) := [(.str "1", 0), (.str "2", 0), (.str "3", 1)]
+def routeB : List (Val × Nat) := [(.str "1", 0), (.str "2", 1), (.str "3", 1)]
+
+example : PlainG (mergeGraph routeA) (cfgOf (.str "2")) (.str "2") := plainGB_sound _ _ _ (by decide +kernel)
+
+/-- the hash evaluates to the routed branch: id "2" goes to `fa` under one routing and to `fb` under the other -/
+example : ((mergeGraph routeA).hashGraph.toOption.bind (evalG (.str "2")) == some (.app "p" [.app "fa" [.str "2"] [] []] [] [])) = true ∧
+    ((mergeGraph routeB).hashGraph.toOption.bind (evalG (.str "2")) == some (.app "p" [.app "fb" [.str "2"] [] []] [] [])) = true := by
+  decide +kernel
 
 end CM.C06
